@@ -4,9 +4,12 @@
      zs = mode :: para :: d :: <type-specific configuration> ;  qs = sd :: eps :: <tester data> ++ var
    mode 0 : coefficients     -> Ok (num_variables :: rows :: width :: A (row-major) ++ b)
    mode 1 : forward model    -> Ok (rows :: (A var + b) ++ Born distribution of every schedule, concatenated)
-   mode 2 : calc_prob_dists  -> Ok (num_schedules :: width :: entries)   | Err 3  (reshape fails)
-   mode 3 : rank             -> Ok [rank; is_fullrank_matA; full column rank]
+   mode 2 : calc_prob_dists  -> Ok (number of rows k :: len_1 .. len_k :: entries of the rows, concatenated)
+                                [counts = num_outcomes(j) of the tomography type; code after fix calc-prob-dists-mixed-outcome-counts]
+   mode 3 : rank             -> Ok [rank; is_fullrank_matA (after fix fullrank-guard-column-rank); full column rank;
+                                    is_fullrank_matA_minshape (the guard before that fix, for diagnostics only)]
    mode 4 : Fisher slicing   -> Ok (predicted distribution used by calc_fisher_matrix for schedule j),  j = last of zs
+                                [code after fix calc-fisher-matrix-mixed-outcome-counts]
    Err 1 : a schedule refers to a tester that does not exist; Err 2 : rows of unequal width (np.vstack fails);
    Err 4 : IndexError in StandardQmpt._set_coeffs (b_qmpt shorter than a_qmpt); Err -1 : malformed request. *)
 From Coq Require Import ZArith QArith Qcanon List Bool Arith Lia.
@@ -56,18 +59,17 @@ Definition all_lt (l : list nat) (k : nat) : bool := forallb (fun i => (i <? k)%
 (* ---- the mode dispatcher, shared by the four tomography types *)
 Definition same_width (A : list lv) : bool :=
   match A with [] => true | r :: t => forallb (fun r' => (length r' =? length r)%nat) t end.
-Definition finish (mode : Z) (j : nat) (eps : Qc) (nv S : nat) (dct : dict Fq) (borns : list (list Qc)) (var : list Qc) : res :=
+Definition finish (mode : Z) (j : nat) (eps : Qc) (nv : nat) (counts : list nat) (dct : dict Fq) (borns : list (list Qc)) (var : list Qc) : res :=
   let A := calc_matA (F:=Fq) dct in let b := calc_vecB (F:=Fq) dct in
   if negb (same_width A) then Err 2 else
   let w := row_width Fq A in
   match mode with
   | 0%Z => Ok (qn nv :: qn (length A) :: qn w :: concat A ++ b)
   | 1%Z => Ok (qn (length A) :: affine_fast A b var ++ concat borns)
-  | 2%Z => match calc_prob_dists Fq eps A b (vl (F:=Fq) var) S with
-           | Some rows => Ok (qn (length rows) :: qn (row_width Fq rows) :: concat rows)
-           | None => Err 3 end
-  | 3%Z => Ok [qn (rank_elim Fq w A); qb (is_fullrank_matA Fq w A); qb (fullcolrank_dec Fq w A)]
-  | 4%Z => Ok (fisher_prob_dist Fq A b (vl (F:=Fq) var) S j)
+  | 2%Z => let rows := calc_prob_dists Fq eps A b (vl (F:=Fq) var) counts in
+           Ok (qn (length rows) :: map (fun r => qn (length r)) rows ++ concat rows)
+  | 3%Z => Ok [qn (rank_elim Fq w A); qb (is_fullrank_matA Fq w A); qb (fullcolrank_dec Fq w A); qb (is_fullrank_matA_minshape Fq w A)]
+  | 4%Z => Ok (fisher_prob_dist Fq A b (vl (F:=Fq) var) counts j)
   | _ => Err (-1)
   end.
 
@@ -85,7 +87,7 @@ Definition op_qst : opfun := fun zs qs =>
           if negb (all_lt scheds (length povms)) then Err 1 else
           let dct := qst_coeffs Fq (zb para) sd povms scheds in
           let borns := map (fun i => qst_born Fq d' (zb para) sd (nth i povms []) (vl (F:=Fq) var)) scheds in
-          finish mode j eps (qst_num_variables (zb para) d') (length scheds) dct borns var
+          finish mode j eps (qst_num_variables (zb para) d') (qst_counts Fq povms scheds) dct borns var
       | [] => Err (-1)
       end
   | _, _ => Err (-1)
@@ -102,7 +104,7 @@ Definition op_povmt : opfun := fun zs qs =>
       if negb (all_lt scheds (length states)) then Err 1 else
       let dct := povmt_coeffs Fq (zb para) sd m' states scheds in
       let borns := map (fun i => povmt_born Fq d' (zb para) sd m' (nth i states []) (vl (F:=Fq) var)) scheds in
-      finish mode j eps (povmt_num_variables (zb para) d' m') (length scheds) dct borns var
+      finish mode j eps (povmt_num_variables (zb para) d' m') (povmt_counts m' scheds) dct borns var
   | _, _ => Err (-1)
   end.
 
@@ -129,7 +131,7 @@ Definition op_qpt : opfun := fun zs qs =>
           let dct := qpt_coeffs Fq (zb para) states povms scheds in
           let HS := hs_of_var Fq (zb para) n (vl (F:=Fq) var) in
           let borns := map (fun ik => born_gate_fast d' (nth (snd ik) povms []) HS (nth (fst ik) states [])) scheds in
-          finish mode j eps (qpt_num_variables (zb para) d') (length scheds) dct borns var
+          finish mode j eps (qpt_num_variables (zb para) d') (qpt_counts Fq povms scheds) dct borns var
       | [] => Err (-1)
       end
   | _, _ => Err (-1)
@@ -154,7 +156,7 @@ Definition op_qmpt : opfun := fun zs qs =>
               let borns := map (fun ik => flat_map (fun x =>
                              born_gate_fast d' (nth (snd ik) povms []) (hss_of_var Fq (zb para) n m' (vl (F:=Fq) var) x)
                                             (nth (fst ik) states [])) (seq O m')) scheds in
-              finish mode j eps (qmpt_num_variables (zb para) d' m') (length scheds) dct borns var
+              finish mode j eps (qmpt_num_variables (zb para) d' m') (qmpt_counts Fq m' povms scheds) dct borns var
           end
       | [] => Err (-1)
       end
@@ -173,11 +175,12 @@ Definition op_ensemble : opfun := fun zs qs =>
   | _, _ => Err (-1)
   end.
 
-(* exact rank of an arbitrary matrix: zs = [rows; cols]; qs = entries row-major -> [rank; is_fullrank; full column rank] *)
+(* exact rank of an arbitrary matrix: zs = [rows; cols]; qs = entries row-major -> [rank; is_fullrank; full column rank; old guard] *)
 Definition op_rank : opfun := fun zs qs =>
   match zs with
   | [r; c] => let A := fst (take_vecs (nat_of c) (nat_of r) qs) in
-      Ok [qn (rank_elim Fq (nat_of c) A); qb (is_fullrank_matA Fq (nat_of c) A); qb (fullcolrank_dec Fq (nat_of c) A)]
+      Ok [qn (rank_elim Fq (nat_of c) A); qb (is_fullrank_matA Fq (nat_of c) A); qb (fullcolrank_dec Fq (nat_of c) A);
+          qb (is_fullrank_matA_minshape Fq (nat_of c) A)]
   | _ => Err (-1)
   end.
 
